@@ -153,6 +153,12 @@ class MockPg:
     def ready(self, req):
         return self.emit(req, 'Z', [self.status])
 
+    def row_tag(self, req, sql):
+        """8-byte DataRow value: backend index, request number, and two hex digits of a hash of the statement text executed."""
+        import hashlib
+        h = hashlib.sha256(sql).digest()[0] if sql is not None else 0
+        return b'b%dr%03d%02x' % (self.idx % 10, req['n'] % 1000, h)
+
     def on_message(self, m):
         code = chr(m[0].v)
         env = self.env_ref[0] if self.env_ref else None
@@ -205,16 +211,30 @@ class MockPg:
                 self.pending.append(self.emit(req, '1'))
             elif code == 'B':
                 portal, stmt = self.cstrings(body, 2)
+                if stmt is not None and stmt not in self.stmts:
+                    self.pending.append(self.emit(req, 'E', b'SERROR\0C26000\0Mprepared statement does not exist\0\0'))
+                    self.ignore_till_sync = True
+                    return
                 if portal is not None:
                     self.portals[portal] = stmt
                 self.pending.append(self.emit(req, '2'))
             elif code == 'D':
+                kind = body[0]
+                name, = self.cstrings(body[1:], 1)
+                if kind.concrete and kind.v == ord('S') and name is not None and name not in self.stmts:
+                    self.pending.append(self.emit(req, 'E', b'SERROR\0C26000\0Mprepared statement does not exist\0\0'))
+                    self.ignore_till_sync = True
+                    return
                 self.pending.append(self.emit(req, 'n'))
             elif code == 'E':
                 portal, = self.cstrings(body, 1)
                 sql = self.stmts.get(self.portals.get(portal)) if portal is not None else None
                 self.execute_extended(req, sql)
             elif code == 'C':
+                kind = body[0]
+                name, = self.cstrings(body[1:], 1)
+                if kind.concrete and kind.v == ord('S') and name is not None:
+                    self.stmts.pop(name, None)
                 self.pending.append(self.emit(req, '3'))
             elif code == 'H':
                 self.deliver(self.pending)
@@ -285,7 +305,7 @@ class MockPg:
             self.pending.append(self.emit(req, 'E', b'SERROR\0C22012\0Mdivision by zero\0\0'))
             self.ignore_till_sync = True
             return
-        self.pending.append(self.emit(req, 'D', struct.pack('>hi', 1, 6) + b'b%dr%03d' % (self.idx % 10, req['n'] % 1000)))
+        self.pending.append(self.emit(req, 'D', struct.pack('>hi', 1, 8) + self.row_tag(req, sql)))
         self.pending.append(self.emit(req, 'C', b'SELECT 1\0'))
 
     def simple_query(self, req, body):
@@ -345,10 +365,12 @@ class MockPg:
             elif u == 'DISCARD ALL':
                 self.dirty_set = self.role_set = self.sql_prepared = False
                 self.named = []
+                self.stmts = {}
                 out.append(self.emit(req, 'C', b'DISCARD ALL\0'))
             elif u == 'DEALLOCATE ALL':
                 self.sql_prepared = False
                 self.named = []
+                self.stmts = {}
                 out.append(self.emit(req, 'C', b'DEALLOCATE ALL\0'))
             elif u.startswith('PREPARE '):
                 if self.st_is('I'):
@@ -370,7 +392,7 @@ class MockPg:
                 break
             else:
                 out.append(self.emit(req, 'T', struct.pack('>h', 1) + b'c\0' + struct.pack('>ihihih', 0, 0, 25, -1, -1, 0)))
-                out.append(self.emit(req, 'D', struct.pack('>hi', 1, 6) + b'b%dr%03d' % (self.idx % 10, req['n'] % 1000)))
+                out.append(self.emit(req, 'D', struct.pack('>hi', 1, 8) + self.row_tag(req, s.encode('latin1'))))
                 out.append(self.emit(req, 'C', b'SELECT 1\0'))
         if self.sym_status:
             # "every server status at that instant": whatever the statement was, the backend may report any status PostgreSQL can
@@ -446,7 +468,14 @@ class HandleEnv:
         self.events = []
         if paused:
             self.set_paused(True)
-        co = dict(read=Agg([self.client_stream], 'BufReader'), write=self.client_stream)
+        # one ClientServerMap shared by the client and every server object (as in the real process)
+        self.csmap = MapV('hashmap')
+        csp = Ptr(Cell(Agg([self.csmap], 'Lock'), 'csmap'))
+        for b in backends:
+            setf(prog, b.server, 'Server', 'client_server_map', csp)
+            setf(prog, b.server, 'Server', 'process_id', BV(32, 9000 + b.idx))
+            setf(prog, b.server, 'Server', 'secret_key', BV(32, 9500 + b.idx))
+        co = dict(read=Agg([self.client_stream], 'BufReader'), write=self.client_stream, client_server_map=csp)
         co.update(client_over or {})
         self.client = mk_client(ip, prog, **co)
         self.violations = []
@@ -475,6 +504,16 @@ class HandleEnv:
                 held.append((b.idx, t['status'], t['copy_in'], t['unsynced'], t['unread'] + t['pending'],
                              bool(last) and last[0].concrete and last[0].v == ord('Z')))
         self.events.append(('client_read', k, held))
+        self.events.append(('csmap', k, [b.idx for b in self.backends if b.held], self.csmap_targets()))
+
+    def csmap_targets(self):
+        """Server process ids a CancelRequest with this client's key would be sent to, per the cancel map."""
+        out = []
+        for k, cell in self.csmap.entries:
+            v = cell.val
+            pid = v.fields[0]
+            out.append(pid.v if pid.concrete else None)
+        return out
 
     def tick(self):
         self.clock += 1
@@ -637,6 +676,12 @@ class HandleEnv:
             for b in self.backends:
                 if b.held:
                     self.put_back(b.cell)
+        if self.outcome[0] in ('done', 'panic'):
+            # client_entrypoint drops the Client when handle() is over (also on unwind): <Client as Drop>::drop
+            dr = [f for n, f in prog.funcs.items() if re.search(r'client::<impl at [^>]*>::drop$', n)]
+            if len(dr) == 1:
+                ip.call_function(dr[0], [cp])
+                self.events.append(('csmap_final', self.csmap_targets()))
         return self.outcome
 
 
@@ -755,6 +800,17 @@ def judge(data, script, dec, expect_forward=None, cache_on=False, denied=None, e
                     # the backend has answered ReadyForQuery(idle), pgcat has read all of it
                     if after_ready and not unread and not copy_in and not unsynced and dec(st.z() == ord('I')):
                         V.append(('C04', 'H/idle-client-keeps-server', 'after its request %d completed outside a transaction the session still holds the connection of backend %d while it waits for the client' % (e[1] - 1, bi)))
+    # ---- cancel map (C10): while the session holds a server the client's key maps to exactly that server; once the server is
+    # released (transaction mode) or the client is gone, the key maps to nothing
+    for e in data['events']:
+        if e[0] == 'csmap':
+            _, k, held, targets = e
+            if not held and targets:
+                V.append(('C10', 'H/stale-cancel-key', 'before reading message %d the session holds no server but its cancel key still maps to server process %r' % (k, targets)))
+            if held and targets != [9000 + held[0]]:
+                V.append(('C10', 'H/cancel-key-wrong-target', 'while the session holds backend %d its cancel key maps to %r' % (held[0], targets)))
+        elif e[0] == 'csmap_final' and e[1]:
+            V.append(('C10', 'H/stale-cancel-key', 'after the client is gone its cancel key still maps to server process %r' % (e[1],)))
     nheld = 0
     for e in data['events']:
         if e[0] == 'checkout':
@@ -773,6 +829,7 @@ def judge(data, script, dec, expect_forward=None, cache_on=False, denied=None, e
     skippable = skippable_flags(fw, cache_on) if expect_forward is None else [False] * len(fw)
     ei = 0
     client_reqs = []
+    pooler_group = False
     for r in data['reqs']:
         m = r['bytes']
         bi = r['backend']
@@ -787,10 +844,14 @@ def judge(data, script, dec, expect_forward=None, cache_on=False, denied=None, e
             if not skippable[j]:
                 break
             j += 1
-        if hit is not None:
+        cm0 = conc(m)
+        if cache_on and cm0 is not None and cm0[:1] == b'C' and cm0[5:6] == b'S':
+            hit = None      # with caching on the client's own Close of a statement is always answered by the pooler: this one is an eviction
+        if hit is not None and not (pooler_group and code_of(m) == 'S'):
             ei = hit + 1
             r['origin'] = 'client'
             client_reqs.append(r)
+            pooler_group = False
             continue
         cm = conc(m)
         if cm is not None and cm[:1] == b'Q' and POOLER_SQL.match(cm[5:-1]):
@@ -800,6 +861,11 @@ def judge(data, script, dec, expect_forward=None, cache_on=False, denied=None, e
             continue
         if cache_on and cm is not None and cm[:1] in (b'P', b'C'):
             r['origin'] = 'pooler'       # statement (re)preparation / eviction on behalf of the cache (documented difference)
+            pooler_group = True
+            continue
+        if cache_on and pooler_group and cm is not None and cm[:1] == b'S':
+            r['origin'] = 'pooler'       # ... which the pooler sends as its own Parse/Close + Sync unit and answers to itself
+            pooler_group = False
             continue
         V.append(('C03', 'H/backend-received-unexpected', 'backend %d received bytes the client did not send at this point: %s (next expected: %s)' %
                   (bi, show(m[:60]), show(fw[ei][:60]) if ei < len(fw) else 'nothing')))
@@ -845,14 +911,34 @@ def judge(data, script, dec, expect_forward=None, cache_on=False, denied=None, e
     return V
 
 
+def _after_cstrings(bs, off, n):
+    """Index just past the n-th NUL-terminated string starting at `off` (None if a byte on the way is symbolic)."""
+    for _ in range(n):
+        while off < len(bs):
+            if not bs[off].concrete:
+                return None
+            off += 1
+            if bs[off - 1].v == 0:
+                break
+    return off
+
+
 def same_msg(dec, got, want, cache_on):
     if not cache_on:
         return same_bytes(dec, got, want)
-    # statement caching: names are rewritten (documented); compare the message code and, for messages without a name, every byte
+    # statement caching: statement names are rewritten and the length field with them (documented); everything else must be equal
     if not same_bytes(dec, got[:1], want[:1]):
         return False
-    if got[0].concrete and chr(got[0].v) in 'PBDC':
-        return True
+    code = chr(got[0].v) if got[0].concrete else '?'
+    if code == 'P':
+        a, b = _after_cstrings(got, 5, 1), _after_cstrings(want, 5, 1)
+        return a is not None and b is not None and same_bytes(dec, got[a:], want[b:])
+    if code == 'B':
+        a, b = _after_cstrings(got, 5, 2), _after_cstrings(want, 5, 2)
+        pa, pb = _after_cstrings(got, 5, 1), _after_cstrings(want, 5, 1)
+        return None not in (a, b, pa, pb) and same_bytes(dec, got[5:pa], want[5:pb]) and same_bytes(dec, got[a:], want[b:])
+    if code in 'DC':
+        return same_bytes(dec, got[5:6], want[5:6])
     return same_bytes(dec, got, want)
 
 
